@@ -1,8 +1,10 @@
 import GormModel.Drv.Util
 import GormModel.Model.WriteSet
+import GormModel.Model.FieldZero
 open Lean
 namespace Gorm.Drv
 open Gorm.WriteSet
+open Gorm.FieldZero
 namespace HC10
 
 def c10Name? (j : Json) : Option Col := (jStr? j).map String.toList
@@ -37,6 +39,40 @@ def c10KeyNil? (j : Json) : Option (Col × Bool) := do
   some (← c10Name? (arg a 0), ← jBool? (arg a 1))
 
 def c10Rows? (j : Json) : Option (List (List Col)) := do (← jArr? j).toList.mapM c10Names?
+
+/-- Go value as JSON: ["int",n] ["uint",n] ["str",s] ["bool",b] ["float","<bits, decimal>"] ["nilptr"] ["ptr",v] ["nilslice"]
+    ["slice",len] ["nilmap"] ["map",len] ["niliface"] ["iface"] ["array",[v…]] ["struct",[v…]] -/
+partial def c10GoVal? (j : Json) : Option GoVal := do
+  let a ← jArr? j
+  match ← jStr? (arg a 0) with
+  | "int" => some (.int (← jInt? (arg a 1)))
+  | "uint" => some (.uint (← jNat? (arg a 1)))
+  | "str" => some (.str (← c10Name? (arg a 1)))
+  | "bool" => some (.bool (← jBool? (arg a 1)))
+  | "float" => some (.float (← (← jStr? (arg a 1)).toNat?))
+  | "nilptr" => some .nilPtr
+  | "ptr" => some (.ptr (← c10GoVal? (arg a 1)))
+  | "nilslice" => some .nilSlice
+  | "slice" => some (.slice (← jNat? (arg a 1)))
+  | "nilmap" => some .nilMap
+  | "map" => some (.map (← jNat? (arg a 1)))
+  | "niliface" => some .nilIface
+  | "iface" => some .iface
+  | "array" => some (.array (← (← jArr? (arg a 1)).toList.mapM c10GoVal?))
+  | "struct" => some (.struct (← (← jArr? (arg a 1)).toList.mapM c10GoVal?))
+  | _ => none
+
+/-- `field.StructField.Index` as the JSON list of Go ints (negative = pointer-embedded struct) -/
+def c10Step? (j : Json) : Option Step := do
+  let i ← jInt? j
+  if i >= 0 then some (.field i.toNat) else some (.ptrField (-i - 1).toNat)
+
+/-- [name, index path, serializer?] -/
+def c10Access? (j : Json) : Option Access := do
+  let a ← jArr? j
+  some { name := ← c10Name? (arg a 0), path := ← (← jArr? (arg a 1)).toList.mapM c10Step?, serializer := ← jBool? (arg a 2) }
+
+def c10Accesses? (j : Json) : Option (List Access) := do (← jArr? j).toList.mapM c10Access?
 
 end HC10
 open HC10 in
@@ -140,6 +176,36 @@ def handleC10 (op : String) (args : Array Json) : Option Json := do
     some (c10NamesJ (deleteCondsO o (← c10Names? (arg args 2)) (← c10Names? (arg args 3)) (← jBool? (arg args 4))))
   | "c10.saverow" =>
     some (Json.bool (saveWritesRow (← jBool? (arg args 1)) (← jBool? (arg args 2)) (← jBool? (arg args 3))))
+  | "c10.kzero" =>
+    -- [accesses, record] -> zero flag of field.ValueOf per field
+    let accs ← c10Accesses? (arg args 1)
+    let r ← c10GoVal? (arg args 2)
+    some (Json.arr (accs.map fun a => Json.bool (valueOfZero a r)).toArray)
+  | "c10.kstruct" =>
+    -- [schema, updSchema, selects, omits, destIsModel, skipHooks, accesses (of upd), record, modelNz]
+    let s ← c10Schema? (arg args 1)
+    let u ← c10Schema? (arg args 2)
+    let r := structSetOfRecord s u (← c10Names? (arg args 3)) (← c10Names? (arg args 4)) (← jBool? (arg args 5))
+      (← jBool? (arg args 6)) (← c10Accesses? (arg args 7)) (← c10GoVal? (arg args 8)) (← c10Names? (arg args 9))
+    some (Json.arr #[c10NamesJ r.1, c10NamesJ r.2])
+  | "c10.kcreate" =>
+    -- [schema, selects, omits, isSlice, accesses, records, upsertAll]
+    let s ← c10Schema? (arg args 1)
+    let sel ← c10Names? (arg args 2)
+    let om ← c10Names? (arg args 3)
+    let recs ← (← jArr? (arg args 6)).toList.mapM c10GoVal?
+    let cols := createColumnsOfRecords s sel om (← jBool? (arg args 4)) (← c10Accesses? (arg args 5)) recs
+    let ups := if (← jBool? (arg args 7)) then upsertAssignments s sel om cols else []
+    let conf := if (← jBool? (arg args 7)) then conflictColumns s cols else []
+    some (Json.arr #[c10NamesJ cols, c10NamesJ ups, c10NamesJ conf])
+  | "c10.ksave" =>
+    -- [schema, selects, omits, accesses, record]
+    let s ← c10Schema? (arg args 1)
+    let r := saveOfRecord s (← c10Names? (arg args 2)) (← c10Names? (arg args 3)) (← c10Accesses? (arg args 4)) (← c10GoVal? (arg args 5))
+    let route := match r.1 with
+      | .create => "create"
+      | .update => "update"
+    some (Json.arr #[Json.str route, c10NamesJ r.2.1, c10NamesJ r.2.2])
   | _ => none
 
 end Gorm.Drv
